@@ -94,7 +94,7 @@ let () =
         let last = i + 1 = n in
         let cls = (if known_dupleak v last capture st then ["dupleak"] else [])
                   @ (if known_capredir v last capture st then ["capredir"] else [])
-                  @ (if known_capdup last capture st then ["capdup"] else [])
+                  @ (if known_capdup last capture st && not v.v_capfirst then ["capdup"] else [])
                   @ (if is_single_builtin { p_stages = sts; p_capture = capture } && lookahead_leak st.s_redirs then ["lookahead"] else [])
                   @ (if List.exists out_of_scope st.s_redirs then ["oos"] else []) in
         let i0 = std_in (obj_at 0) (nat_of_int i) st in
